@@ -69,7 +69,10 @@ def alphabets(seed: int = 0) -> Dict[str, List[Tuple[Any, Any]]]:
     ub = [b"\x00" * 16, b"\xff" * 16, _uuid_pattern(seed), bytes(range(16))]
     a["LLUUID"] = [(UUID(bytes=b), b) for b in ub]
     # byte fields: (library value, wire bytes)
-    text = ["", "a", "héllo ✓ wörld", "a\x00b", "line1\nline2\n\"q\" 'q' \\ end", "x" * 254]
+    # incl. a leading / lone byte-order mark, a non-BMP and a decomposed character, surrounding blanks and CR LF: each is legal UTF-8 that a
+    # "helpful" decoder (utf-8-sig, normalisation, strip, universal newlines) would not give back
+    text = ["", "a", "héllo ✓ wörld", "a\x00b", "line1\nline2\n\"q\" 'q' \\ end", "x" * 254,
+            "\ufeffbom", "\ufeff", "e\u0301 \U0001f600", " pad \t", "cr\r\nlf\r"]
     a["TEXT1"] = [(s, s.encode("utf8") + b"\x00") for s in text] + [
         (b"", b""), (b"\xff\xfe", b"\xff\xfe"), (b"abc", b"abc"), (_pat(255, seed), _pat(255, seed))]
     a["TEXT2"] = [(s, s.encode("utf8") + b"\x00") for s in text + ["y" * 255, "z" * 1199]] + [
@@ -214,7 +217,8 @@ class Gen:
     def ref_value(self, name, bname, rvar, idx):
         return self.alphabet(var_key(name, bname, rvar))[idx][1]
 
-    def lib_message(self, case: dict, skip_vars=(), fill_missing=False) -> Message:
+    def lib_message(self, case: dict, skip_vars=(), fill_missing=False, fill_blocks=None) -> Message:
+        """fill_blocks: set of (block name, index) marked fill_missing individually (the other blocks are not marked)."""
         tmpl = self.templates[case["name"]]
         msg = Message(case["name"], packet_id=case["packet_id"], flags=case["flags"], acks=tuple(case["acks"]))
         if case["extra"]:
@@ -226,7 +230,8 @@ class Gen:
             for i, row in enumerate(rows):
                 kw = {v.name: self.lib_value(case["name"], bname, v, row[v.name]) for v in rb.vars
                       if (bname, i, v.name) not in skip_vars and (bname, None, v.name) not in skip_vars}
-                msg.add_block(Block(bname, fill_missing=fill_missing, **kw))
+                fm = fill_missing if fill_blocks is None else ((bname, i) in fill_blocks)
+                msg.add_block(Block(bname, fill_missing=fm, **kw))
         return msg
 
     def ref_message(self, case: dict, skip_vars=()) -> dict:
@@ -286,3 +291,60 @@ def case_summary(case: dict) -> dict:
     return {"name": case["name"], "tag": case.get("tag"), "flags": case["flags"], "packet_id": case["packet_id"],
             "n_acks": len(case["acks"]), "extra_len": len(case["extra"]),
             "blocks": [(b, len(rows)) for b, rows in case["blocks"]]}
+
+
+def rejected_ops(gen: "Gen", name: str):
+    """[(label, fn(ser, de_eager, de_lazy) -> raised?)]: calls the codec is expected to reject, each leaving work half done."""
+    tmpl = gen.templates[name]
+    base = {"name": name, "flags": 0, "packet_id": 9, "acks": (), "extra": b"", "blocks": gen.blocks(tmpl, 2, {}), "tag": "rej"}
+    ops = []
+
+    def enc(label, build):
+        def fn(ser, de_eager, de_lazy):
+            try:
+                ser.serialize(build())
+            except Exception:
+                return True
+            return False
+        ops.append((label, fn))
+
+    def dec(label, data):
+        def fn(ser, de_eager, de_lazy):
+            raised = False
+            for de in (de_eager, de_lazy):
+                try:
+                    de.deserialize(data).blocks
+                except Exception:
+                    raised = True
+            return raised
+        ops.append((label, fn))
+
+    last_b = next((b for b in reversed(tmpl.blocks) if b.vars), None)
+    if last_b is not None:
+        enc("enc:unset-late", lambda: gen.lib_message(base, skip_vars={(last_b.name, None, last_b.vars[-1].name)}))
+        intv = next(((b, v) for b in reversed(tmpl.blocks) for v in reversed(b.vars) if v.type in ("U8", "U16", "U32", "S8", "S16", "S32")), None)
+        if intv is not None:
+            def _oor():
+                m = gen.lib_message(base)
+                m.blocks[intv[0].name][-1].vars[intv[1].name] = 1 << 40
+                return m
+            enc("enc:out-of-range", _oor)
+
+    def _unknown():
+        m = gen.lib_message(base)
+        m.add_block(Block("NoSuchBlock", X=1))
+        return m
+    enc("enc:unknown-block", _unknown)
+    mult = next((b for b in tmpl.blocks if b.kind == "Multiple" and b.number >= 2), None)
+    if mult is not None:
+        def _short():
+            m = gen.lib_message(base)
+            m.blocks[mult.name].pop()
+            return m
+        enc("enc:multiple-short", _short)
+    good = refwire.encode(gen.ref_message(base))
+    if len(good) > 7:
+        dec("dec:truncated", good[:-1] if tmpl.blocks else good[:6])
+    dec("dec:unknown-number", good[:6] + b"\xff\xff\xff\xf0" + b"\x00" * 8)
+    dec("dec:zerocode-dangling", bytes([good[0] | 0x80]) + good[1:6] + b"\x00")
+    return ops
